@@ -467,6 +467,20 @@ pub fn explore_layouts(ctx: &Ctx, version: u16, thorough: bool) -> E2Stats {
                                 steps += 2;
                                 report(ctx, &c2, p2);
                             }
+                        } else if ok && matches!(op, Op::RemoveStream(_) | Op::RemoveStorage(_)) {
+                            // quick tier: after a removal (which relinks and recolours the foreign tree) every
+                            // remaining entry is rewritten from memory in the same session
+                            for (p2, k2) in root.all_paths() {
+                                if p2 == "/" {
+                                    continue;
+                                }
+                                let op2 = if k2 == Kind::Stream { Op::Append(p2.clone(), 3) } else { Op::SetStateBits(p2.clone(), 6) };
+                                let c2 = LayoutCase { ops: vec![op.clone(), op2], ..c0.clone() };
+                                let p2r = run_case(&c2);
+                                cases += 1;
+                                steps += 2;
+                                report(ctx, &c2, p2r);
+                            }
                         }
                     }
                 }
@@ -629,7 +643,10 @@ pub fn explore_deviations(ctx: &Ctx, version: u16, thorough: bool) -> E2Stats {
         let (lsec, _) = synth::plan(&root, &base).unwrap();
         let mut rev: Vec<u32> = (0..lsec as u32).collect();
         rev.reverse();
-        let mut bases = vec![base.clone(), Layout { sector_perm: rev, trailing_free_sectors: 1, ..base.clone() }];
+        // rotated by one: every logical sector moves up one place and the last one sits in sector 0, so a
+        // chain through the last two logical sectors runs from the last sector of the file to sector 0
+        let rot: Vec<u32> = (0..lsec as u32).map(|i| (i + 1) % lsec as u32).collect();
+        let mut bases = vec![base.clone(), Layout { sector_perm: rev, trailing_free_sectors: 1, ..base.clone() }, Layout { sector_perm: rot, ..base.clone() }];
         if version == 3 && (cname == "two-mini" || cname == "three-mixed") {
             bases.push(Layout { extra_fat_sectors: 110, ..base.clone() });
         }
